@@ -44,27 +44,8 @@ ASSUMPTIONS = [
 
 
 # ------------------------------------------------------------------------------------------------
-# known-finding signatures
-
-def _sig_profile(case, params):
-    return False     # the size / close-code deviations are repaired (entries are "fixed:"); nothing is explained by a profile
-
-
-def _sig_class(case, params):
-    """Exactly the open defect's family: the RFC reference stops at a TEXT/BINARY frame that arrives while a fragmented
-    message is open (class data-in-message), the implementation agreed with the reference up to that frame, AND from
-    there on the implementation behaves exactly like the faithful Coq model (whose only deviation from the reference
-    is that defect: C12_refines_spec_partial).  Any other deviation (e.g. a continuation without a started message
-    being accepted) - also after an interleaved frame - is a new violation."""
-    return (case.get("kind") == "spec" and case.get("spec_class") == params.get("cls")
-            and case.get("prefix_agrees") is True and case.get("matches_model") is True)
-
-
-def _sig_stale(case, params):
-    return case.get("kind") == "stale-fragments"
-
-
-SIGNATURES = {"explained_by_profile": _sig_profile, "spec_class_is": _sig_class, "stale_fragments": _sig_stale}
+# known findings: none open (all four are fixed in /repo and kept as corpus regressions), so nothing is suppressed
+SIGNATURES: dict = {}
 
 
 def build_model():
@@ -557,20 +538,17 @@ _DEVIATIONS: list = []
 
 
 def flush_deviations(ctx, exe):
-    """Report every recorded deviation from the RFC reference decoder.  The only family that is an open finding is the
-    interleaved data frame (see _sig_class); everything else is a new violation."""
+    """Every deviation from the RFC reference decoder is a violation (C12_refines_spec is a full theorem)."""
     global _DEVIATIONS
     devs, _DEVIATIONS = _DEVIATIONS, []
     for case, cfg, stream, obs, (sev, sst, scls), mobs in devs:
-        prefix = obs[0][:len(sev)] == sev
         same = (obs[0], obs[1]) == (mobs[0], mobs[1])
-        known = scls == "data-in-message" and prefix and same
-        ctx.count("deviation:" + ("data-in-message" if known else "UNEXPLAINED"))
-        ctx.violation(dict(case, kind="spec", spec_class=scls, prefix_agrees=prefix, matches_model=same,
+        ctx.count("deviation:" + str(scls or "accepted-by-reference"))
+        ctx.violation(dict(case, kind="spec", spec_class=scls, matches_model=same,
                            spec=[sev, sst, scls], impl=[obs[0], obs[1]], model=[mobs[0], mobs[1]]),
                       f"reader differs from the RFC 6455/7692 reference decoder: impl delivered {obs[0]} then {obs[1]}; "
                       f"reference delivers {sev} then {sst}" + (f" ({scls})" if scls else "")
-                      + ("" if same else f"; the faithful model delivers {mobs[0]} then {mobs[1]}"))
+                      + ("" if same else f"; the model delivers {mobs[0]} then {mobs[1]}"))
 
 
 # ------------------------------------------------------------------------------------------------
@@ -653,7 +631,8 @@ def gen_streams(ctx):
 def corpus_cases():
     d = os.path.join(fw.VERIF, "corpus", PROP)
     out = []
-    for fn in sorted(os.listdir(d)) if os.path.isdir(d) else []:
+    names = sorted(os.listdir(d), key=lambda n: (not n.startswith("fixed-"), n)) if os.path.isdir(d) else []
+    for fn in names:
         if fn.endswith(".json"):
             p = json.load(open(os.path.join(d, fn)))
             out.append((fn, p.get("case", p)))
@@ -1102,9 +1081,7 @@ def replay(ctx, case):
         mev = [e for evs_, _, _ in mrun0 for e in evs_]
         mstatus = mrun0[-1][1][2:] if mrun0 and mrun0[-1][1].startswith("X:") else "pending"
         if (allev, status) != (sev, sst):
-            fam = scls == "data-in-message" and allev[:len(sev)] == sev and (allev, status) == (mev, mstatus)
-            bad.append("differs from reference decoder" + (" (open finding: data frame inside a fragmented message)" if fam
-                                                            else " (NOT explained by the open finding)"))
+            bad.append("differs from reference decoder")
         if (allev, status) != (one[1], one[2]):
             bad.append("depends on segmentation")
         if stale is not None:
@@ -1114,9 +1091,8 @@ def replay(ctx, case):
         if not all(ok for _, _, _, ok in per):
             bad.append("feed_data return value / size field")
         mrun = parse_run(model[0])
-        if [(e, s_, p_) for e, s_, p_, _ in per] != mrun:
-            bad.append("model and implementation differ (correspondence)")
-        return {"impl": [allev, status], "impl_one_shot": [one[1], one[2]], "reference_rfc": [sev, sst, scls],
+        model_differs = [(e, s_, p_) for e, s_, p_, _ in per] != mrun      # correspondence, not a property violation
+        return {"model_and_implementation_differ": model_differs, "impl": [allev, status], "impl_one_shot": [one[1], one[2]], "reference_rfc": [sev, sst, scls],
                 "reference_aiohttp_profile": model[2], "model_run": model[0], "stale_fragment_feed": stale,
                 "violates": bool(bad), "why": bad}
     return {"violates": None, "note": "this suite is regenerated from the seed; re-run with --seed"}
